@@ -6,7 +6,8 @@ import io
 import sys
 
 from gunicorn.http.errors import (NoMoreData, ChunkMissingTerminator,
-                                  InvalidChunkSize)
+                                  InvalidChunkSize, LimitRequestLine,
+                                  LimitRequestHeaders)
 
 
 class ChunkedReader:
@@ -41,15 +42,23 @@ class ChunkedReader:
         buf = io.BytesIO()
         buf.write(data)
 
+        # the trailer section is a header block: it is buffered up to the
+        # same limit, wherever the reads happen to cut it
+        limit = self.req.max_buffer_headers
+
         idx = buf.getvalue().find(b"\r\n\r\n")
         done = buf.getvalue()[:2] == b"\r\n"
         while idx < 0 and not done:
+            if buf.tell() > limit:
+                raise LimitRequestHeaders("max buffer trailers")
             self.get_data(unreader, buf)
             idx = buf.getvalue().find(b"\r\n\r\n")
             done = buf.getvalue()[:2] == b"\r\n"
         if done:
             unreader.unread(buf.getvalue()[2:])
             return b""
+        if idx + 3 > limit:
+            raise LimitRequestHeaders("max buffer trailers")
         self.req.trailers = self.req.parse_headers(buf.getvalue()[:idx], from_trailer=True)
         unreader.unread(buf.getvalue()[idx + 4:])
 
@@ -79,10 +88,18 @@ class ChunkedReader:
         if data is not None:
             buf.write(data)
 
+        # a chunk-size line (with its extensions) is a protocol line: it is
+        # buffered up to the request line limit (0: unlimited)
+        limit = self.req.limit_request_line
+
         idx = buf.getvalue().find(b"\r\n")
         while idx < 0:
+            if 0 < limit < buf.tell() - 1:
+                raise LimitRequestLine(buf.tell(), limit)
             self.get_data(unreader, buf)
             idx = buf.getvalue().find(b"\r\n")
+        if 0 < limit < idx:
+            raise LimitRequestLine(idx, limit)
 
         data = buf.getvalue()
         line, rest_chunk = data[:idx], data[idx + 2:]
